@@ -7,6 +7,7 @@ package gen
 
 import (
 	"fmt"
+	"runtime"
 	"sort"
 
 	"verif/model"
@@ -30,7 +31,7 @@ func InjectViolation(t *T, s *model.Schema, d *model.Doc, opIndex int) (*model.D
 	op := ops[((opIndex%n)+n)%n]
 	c := &injector{t: t, s: s, d: CloneDoc(d)}
 	c.index()
-	extra, ok := op.run(c)
+	extra, ok := runOperator(op.run, c)
 	if !ok {
 		return nil, Injection{Operator: op.name}, false
 	}
@@ -39,6 +40,22 @@ func InjectViolation(t *T, s *model.Schema, d *model.Doc, opIndex int) (*model.D
 		inj.Rules = append(append([]string{}, op.rules...), extra...)
 	}
 	return c.d, inj, true
+}
+
+// runOperator applies an operator. The operators are written for valid documents; on a
+// document that already carries injections an operator may find nothing to work on (an empty
+// candidate list indexed): that is "not applicable", not a failure of the case.
+func runOperator(run func(*injector) ([]string, bool), c *injector) (extra []string, ok bool) {
+	defer func() {
+		if r := recover(); r != nil {
+			if _, isRuntime := r.(runtime.Error); isRuntime {
+				extra, ok = nil, false
+				return
+			}
+			panic(r)
+		}
+	}()
+	return run(c)
 }
 
 func NumInjectionOperators() int { return len(injOperators()) }
